@@ -623,14 +623,24 @@ def yaml_slice() -> Tuple[int, List[Violation]]:
     except Exception:  # pragma: no cover
         return 0, viols
     ensure_hook()
+    import verif_lib
+
+    verif_lib.register()
+    from semantiva.registry import load_extensions
+
+    load_extensions(["semantiva-examples"])
     exprs = ["max(t, 1, default=__import__('os').getcwd())", "t.__class__", "(lambda: t)()", "[z for z in (t,)]",
              "max(t, *open('/etc/hostname'))", "t if t else q", "getattr(t, 'real')", "2.0 * t"]
-    for e in exprs:
+    # the same node with and without the swept parameter ALSO given in the node's own parameters block, and with an unrelated one given
+    shapes = [None, {"value": 10.0}, {"value": None}]
+    for e, pinned in [(e, sh) for e in exprs for sh in shapes]:
         cfg = {
             "processor": "FloatValueDataSource",
             "derive": {"parameter_sweep": {"parameters": {"value": e}, "variables": {"t": [1.0, 2.0]},
                                             "collection": "FloatDataCollection"}},
         }
+        if pinned is not None:
+            cfg["parameters"] = dict(pinned)
         tree = ast.parse(e, mode="eval")
         reason = SG.why_unsafe(tree, {"t"})
         n += 1
@@ -658,9 +668,13 @@ def yaml_slice() -> Tuple[int, List[Violation]]:
                 wrong = type(exc).__name__
         finally:
             _AUDIT_ON[0] = False
-        if reason and (accepted or _AUDIT):
-            viols.append(Violation("unsafe-accepted-through-yaml" if accepted else "side-effect-during-compile",
-                                   f"derive.parameter_sweep.parameters value {e!r} ({reason}) accepted={accepted} audit={sorted(set(_AUDIT))}",
+        if not reason and not accepted and pinned is None:
+            raise AssertionError(f"yaml slice is vacuous: the safe expression {e!r} is refused ({wrong})")
+        # (building a node logs and introspects: the framework's own sys._getframe calls on this path are not the expression's doing)
+        events = [ev for ev in _AUDIT if ev != "sys._getframe"]
+        if reason and (accepted or events):
+            viols.append(Violation(("unsafe-accepted-through-yaml" if accepted else "side-effect-during-compile") + ("|parameter-also-in-node-parameters" if pinned is not None else ""),
+                                   f"derive.parameter_sweep.parameters value {e!r} ({reason}) with node parameters {pinned}: accepted={accepted} audit={sorted(set(events))}",
                                    {"kind": "yaml", "expr": e}))
     return n, viols
 
